@@ -83,16 +83,14 @@ theorem uN (q : E → Bool) : ∀ n, Sound (finderN uniqueCfg q n) (exprsN q n)
     by_cases ht : isTypeDef k = true
     · simp only [ht, if_true]; exact sound_ret _ [] [] (by simp)
     · by_cases hd : isVarDecl k = true
-      · simp only [ht, hd, if_true, Bool.false_eq_true, if_false, finderT, e2, bindE]
-        rw [ret_plain uniqueCfg rfl, uq_unique]
-        simp only [bindE]
-        have : items (uniqE y2) ++ List.map (fun x => R.item (Item.e x)) (initials q (symbolsOf cs))
-            = items (uniqE y2 ++ initials q (symbolsOf cs)) := by simp [items]
+      · simp only [ht, hd, if_true, Bool.false_eq_true, if_false, e1, bindE]
+        have : items y1 ++ List.map (fun x => R.item (Item.e x)) (initials q (symbolsOf cs))
+            = items (y1 ++ initials q (symbolsOf cs)) := by simp [items]
         rw [this]
         apply sound_ret
         intro y hy
         rcases List.mem_append.mp hy with hy | hy
-        · exact List.mem_append_left _ (s2 y (mem_uniqE hy))
+        · exact List.mem_append_left _ (s1 y hy)
         · exact List.mem_append_right _ hy
       · simp only [ht, hd, Bool.false_eq_true, if_false, e1, bindE]
         exact sound_ret _ y1 _ s1
